@@ -47,7 +47,7 @@ Inductive result_obs :=
 Section Breaker.
   Variable coin_lt : Z -> Z -> Z -> bool.
 
-  (* accept, :36-50 : true = admitted *)
+  (* accept, :36-50 : true = let_in *)
   Definition accept (w : rw) (now m : Z) : bool :=
     let (a, t) := history w now in
     let n2 := excess2 a t in
@@ -74,14 +74,14 @@ Section Breaker.
   | PReject (id : nat)
   | Advance (dt : Z).
 
-  Inductive obs := ONone | OAdmitted | ORejected (r : result_obs) | ODone (r : result_obs) | OAllowRejected.
+  Inductive obs := ONone | OLetIn | ORejected (r : result_obs) | ODone (r : result_obs) | OAllowRejected.
 
   Definition bstep (st : rw * Z) (e : ev) : (rw * Z) * obs :=
     let '(w, now) := st in
     match e with
-    | Begin _ k m => match do_begin w now m k with None => (st, OAdmitted) | Some r => (st, ORejected r) end
+    | Begin _ k m => match do_begin w now m k with None => (st, OLetIn) | Some r => (st, ORejected r) end
     | End _ k o => let (w', r) := do_end w now k o in ((w', now), ODone r)
-    | Allow _ m => if accept w now m then (st, OAdmitted) else (st, OAllowRejected)
+    | Allow _ m => if accept w now m then (st, OLetIn) else (st, OAllowRejected)
     | PAccept _ => ((mark w now true, now), ONone)
     | PReject _ => ((mark w now false, now), ONone)
     | Advance dt => ((w, now + dt), ONone)
